@@ -335,6 +335,11 @@ func runSCIONServer(ctx context.Context, log *slog.Logger, mtrcs *scionServerMet
 				decoded[len(decoded)-2] == slayers.LayerTypeEndToEndExtn {
 				authOpt, err = e2eLayer.FindOption(slayers.OptTypeAuthenticator)
 				if err == nil {
+					if len(authOpt.OptData) != scion.PacketAuthOptDataLen {
+						log.LogAttrs(ctx, slog.LevelInfo, "failed to authenticate packet",
+							slog.String("cause", "unexpected authenticator option data"))
+						continue
+					}
 					spi, algo := scion.PacketAuthOptMetadata(authOpt)
 					if spi == scion.PacketAuthSPIClient && algo == scion.PacketAuthAlgorithm {
 						hostASKey, err := fetcher.FetchHostASKey(ctx, drkey.HostASMeta{
